@@ -26,8 +26,8 @@ func djump(pc ProgramCounter, a uint32, jumpTable JumpTable, bitmask Bitmask) (E
 	index := a/ZA - 1 // GP,  if  ZA > 1, index = ZA*index
 	dest, _, err := ReadUintFixed(jumpTable.Data[index*jumpTable.Length:], int(jumpTable.Length))
 	if err != nil {
-		// memory corruption?
-		panic(err.Error())
+		// jump-table entry width z > 8 (or a truncated table): not a valid target
+		return ExitPanic, pc
 	}
 
 	newPC := ProgramCounter(dest)
